@@ -142,7 +142,7 @@ pub trait Read: Sized {
         ensures
             final(self).wf(),
             r is Ok ==> n <= old(self).unread().len() && r->Ok_0@ =~= old(self).unread().subrange(0, n as int) && final(self).unread() =~= old(self).unread().skip(n as int)
-                && final(self).consumed() == old(self).consumed() + n,                                       // [C20.reader.read-exact] [C01.reader.read-exact] read_bytes(n) returns exactly the next n bytes and consumes exactly them
+                && final(self).consumed() == old(self).consumed() + n,                                       // [C03.reader.read-exact] [C20.reader.read-exact] [C01.reader.read-exact] read_bytes(n) returns exactly the next n bytes and consumes exactly them
             r is Err ==> final(self).unread().len() <= old(self).unread().len(),                             // [C04.reader.error-loses-only-input]
             final(self).reliable() == old(self).reliable(), old(self).reliable() && n <= old(self).unread().len() ==> r is Ok,   // [C05.reader.available-bytes-are-delivered]
 //@@ loop 0 optional
